@@ -12,7 +12,7 @@ func init() {
 	register(&PropertyDef{
 		ID: "C05",
 		Explanation: "The static content of 'byte-exact age v1' decided against hand-transcribed specification tables: every label, size, parameter, KDF/AEAD/OAEP call-site recipe, stanza layout and guard on both the wrapping and the unwrapping side (terms reconstructed from SSA by E3), " +
-			"plus the format constants of STREAM, the header grammar, armor and Bech32, equal /verif/spec/recipes.json and constants.json. Both directions are covered because both the Wrap and the unwrap site of each recipient type are rows of the table.",
+			"plus the format constants of STREAM, the header grammar, armor and Bech32, equal /verif/spec/recipes.json and constants.json. Both directions are covered because both the Wrap and the unwrap site of each recipient type are rows of the table. Also: the emitted byte sequence of the serialisers as a grammar (emits), the parser's acceptance conditions (R05.parse = R07.1), the nonce layout (R05.stream-nonce), the chunking rule (R05.chunking = R12.4) and the header listing exactly the recipients' stanzas in order (R05.header-stanzas = R01.9).",
 		NotDecided:  "the arithmetic that applies the constants (polymod, convertBits, writeWrapped, buffer offsets, incNonce as arithmetic) and the primitives themselves: the check decides constants and call-site recipes, not the byte stream.",
 		Assumptions: []string{"the tables in /verif/spec are a correct transcription of the age v1 specification", "external primitives implement what their names say"},
 		Technique:   "static analysis: SSA term reconstruction (E3) of call-site recipes and constant folding compared with specification tables (E9)",
